@@ -686,8 +686,10 @@ def best_to_volt(qz, t, ctx, form):
 
 def inv_B(qz, t, ctx, form='uv'):
     """does term t have the form pc*H + k*O (or, as a note number, 12*k + pc) with pc in [0,11] enabled (under ctx)?"""
+    from ..terms import pin_atoms
+    t = pin_atoms(t, ctx)
     q = t if form == 'note' else t_idiv(t, Poly.const(qz.H), ctx)
-    pc = t_mod(q, Poly.const(12), ctx)
+    pc = pin_atoms(t_mod(q, Poly.const(12), ctx), ctx)
     k = t_idiv(q, Poly.const(12), ctx)
     lo, hi = ctx.rng(pc)
     if not (lo >= 0 and hi <= 11):
@@ -736,7 +738,9 @@ def check_search(res, facts, prop):
         vin = t_f2i(v.term.scale(O), 0, 2 ** 32 - 1, st.ctx)
         k0 = t_idiv(vin, Poly.const(O), st.ctx)
         inst0 = 'search|outer=%s,inner=%s' % modes
-        res.ob('R-SEARCH', inst0 + '|accumulators found', run.acc_locals is not None and len(run.acc_locals) == 2 and len(run.heads) == 2,
+        # (C07 only needs the invariant of the recorded best over whatever loop structure visits the candidates; the ordering
+        # premises of C08 are stated for the two-level scan)
+        res.ob('R-SEARCH', inst0 + '|accumulators found', run.acc_locals is not None and len(run.acc_locals) == 2 and (len(run.heads) == 2 or (prop == 'C07' and len(run.heads) == 1)),
                'loop-carried accumulators %s, loop heads %s (expected best-candidate and best-distance in a two-level scan)' % (run.acc_locals, run.heads), where, key='R-SEARCH:shape:%s%s' % modes)
         if run.acc_locals is None:
             continue
@@ -781,7 +785,8 @@ def check_search(res, facts, prop):
                     continue
                 # which kind of return: the untouched initial best (A exit), or a candidate
                 is_init = modes[0] == 'A' and r.term == ZERO and not any('iter_elem' in repr(a) or 'range_start' in repr(a) for a in all_atoms(r.term))
-                pcs = t_mod(r.term, Poly.const(12), o.ctx)
+                from ..terms import pin_atoms
+                pcs = pin_atoms(t_mod(pin_atoms(r.term, o.ctx), Poly.const(12), o.ctx), o.ctx)
                 octs = t_idiv(r.term, Poly.const(12), o.ctx)
                 volt = pcs.scale(H) + octs.scale(O)
                 en = o.ctx.decide(qz.enabled(Poly.sym('self.allowed'), pcs, o.ctx))
